@@ -3,6 +3,7 @@ import Pyrtma.Proofs.ManagerStatsEv
 import Pyrtma.Proofs.ManagerStatsQuiet
 import Pyrtma.Proofs.ManagerSafe
 import Pyrtma.Proofs.ManagerStatsRecv
+import Pyrtma.Proofs.ManagerStatsConn
 /-!
 # Simulation between the Spec's abstract state and the model, for the statistics (C18)
 
@@ -463,6 +464,45 @@ structure MInv (cfg : Cfg) (x : State) : Prop where
   k : K x
   stat : StatInv cfg x
 
+/-- the abstract entry of a connection agrees with its table entry -/
+def TabEq (am : AMod) (m : Module) : Prop :=
+  am.uid = m.uid ∧ am.modId = m.modId ∧ am.pid = m.pid ∧ am.connected = m.connected
+
+/-- every table entry (but the manager's own) has an abstract entry that agrees with it -/
+def TabP (x : State) (ams : List AMod) : Prop := ∀ m ∈ x.mods, m.uid ≠ 0 → ∃ am ∈ ams, TabEq am m
+
+theorem mem_depMods_of_open {ms : List AMod} {am : AMod} (h : am ∈ ms) {xs : List Nat} (hx : xs.contains am.uid = false) :
+    am ∈ depMods ms xs := by
+  rw [depMods_eq_map]
+  have hx' : am.uid ∉ xs := by simpa using hx
+  exact List.mem_map.mpr ⟨am, h, by simp [hx']⟩
+
+/-- entries kept by an operation keep their abstract entries, once the departures of the operation are applied -/
+theorem tab_step {y y' : State} {ams : List AMod} {e : List Ev} {p : Nat → Bool}
+    (htab : ∀ m ∈ y.mods, m.uid ≠ 0 → p m.uid = false → ∃ am ∈ ams, TabEq am m) (hrk : RKP p y y')
+    (hcons : ∀ u, closeCnt e u + openN y' u = openN y u) (hd' : UidsDistinct y') (hao : AllOpen y') :
+    ∀ m' ∈ y'.mods, m'.uid ≠ 0 → p m'.uid = false → ∃ am ∈ depMods ams (closes e), TabEq am m' := by
+  intro m' hm' h0 hp
+  have hf' := find_of_mem hd' hm'
+  obtain ⟨m, hm, hk⟩ := hrk m'.uid m' hp hf'
+  have hmu := find_uid hm
+  obtain ⟨am, ham, h1, h2, h3, h4⟩ := htab m (mem_of_find hm) (by rw [hmu]; exact h0) (by rw [hmu]; exact hp)
+  have hcl := hao m'.uid m' hf'
+  have ht := hk.1
+  simp only [Module.tabv, Prod.mk.injEq] at ht
+  have hop : isOpen y' m'.uid = true := isOpen_of_find hf' hcl
+  have hnc : (closes e).contains am.uid = false := by
+    rw [h1, hmu]
+    cases hq : (closes e).contains m'.uid with
+    | false => rfl
+    | true =>
+      have := (mem_closes_iff e m'.uid).mp hq
+      have hc := hcons m'.uid
+      unfold openN at hc
+      rw [hop] at hc
+      cases h5 : isOpen y m'.uid <;> simp [h5] at hc <;> omega
+  exact ⟨am, mem_depMods_of_open ham hnc, h1.trans hmu, by rw [h2, ht.1], by rw [h3, ht.2.1], by rw [h4, (hk.2 hcl).2]⟩
+
 structure Sim (cfg : Cfg) (x : State) (a : A) : Prop where
   now : a.now = x.now
   tT : a.tTiming = x.tTiming
@@ -475,6 +515,8 @@ structure Sim (cfg : Cfg) (x : State) (a : A) : Prop where
   fail : a.fail = x.fail
   pubT : a.pubT = tallyOn [] (cliMarks cfg (sinceTick .timingTick x.hist))
   pubR : a.pubR = tallyOn [] (cliMarks cfg (sinceTick .trafficTick x.hist))
+  buf : a.buf = x.buf
+  tab : TabP x a.mods
 
 /-- frames of a manager type `t` the marks `e` record as handled outside a statistics send (nothing for other types) -/
 def hmgr (cfg : Cfg) (e : List Mark) (t : Int) : Nat := if mgrType cfg t then handled e t else 0
@@ -496,6 +538,25 @@ theorem hmgr_le (cfg : Cfg) (e : List Mark) (t : Int) : hmgr cfg e t ≤ handled
 structure RecvOK (cfg : Cfg) (x : State) (a : A) : Prop where
   t : ∀ q ∈ a.recvT, q.2 ≤ hmgr cfg (sinceTick .timingTick x.hist) q.1.2
   r : ∀ q ∈ a.recvR, q.2 ≤ hmgr cfg (sinceTick .trafficTick x.hist) q.1.2
+
+theorem inj_of_nodup_map {α β : Type} (f : α → β) : ∀ (l : List α), (l.map f).Nodup → ∀ x ∈ l, ∀ y ∈ l, f x = f y → x = y
+  | [], _, x, hx, _, _, _ => by cases hx
+  | a :: l, hd, x, hx, y, hy, hxy => by
+    rw [List.map_cons, List.nodup_cons] at hd
+    rcases List.mem_cons.mp hx with rfl | hx' <;> rcases List.mem_cons.mp hy with rfl | hy'
+    · rfl
+    · exact absurd (hxy ▸ List.mem_map.mpr ⟨y, hy', rfl⟩) hd.1
+    · exact absurd (hxy ▸ List.mem_map.mpr ⟨x, hx', rfl⟩) hd.1
+    · exact inj_of_nodup_map f l hd.2 x hx' y hy' hxy
+
+theorem nodup_range_succ (n : Nat) : ((List.range n).map (· + 1)).Nodup := by
+  rw [List.nodup_iff_pairwise_ne, List.pairwise_map]
+  exact List.nodup_range.imp (fun h => by omega)
+
+/-- an abstract table has one entry per connection -/
+theorem sim_unique {cfg : Cfg} {x : State} {a : A} (h : Sim cfg x a) {am am' : AMod} (h1 : am ∈ a.mods) (h2 : am' ∈ a.mods)
+    (hu : am.uid = am'.uid) : am = am' :=
+  inj_of_nodup_map (·.uid) a.mods (by rw [h.uids]; exact nodup_range_succ _) am h1 am' h2 hu
 
 theorem sim_get {cfg : Cfg} {x : State} {a : A} (h : Sim cfg x a) {u : Nat} (h1 : 1 ≤ u) (h2 : u ≤ x.nextUid) :
     ∃ am, a.get u = some am ∧ am ∈ a.mods ∧ am.uid = u := by
@@ -591,6 +652,230 @@ theorem isOpen_iff_find {y : State} (ht : Top cfg y) (u : Nat) : isOpen y u = (y
   | none => rw [isOpen_find_none hf]; rfl
   | some m => rw [isOpen_of_find hf (ht.aopen u m hf)]; rfl
 
+omit ok hfuel in
+theorem readOne_rkx {y : State} (hc : y.crashed = none) (rd : Read) (m : Module) (hm : y.find rd.uid = some m) :
+    RKX rd.uid (afterRead cfg y rd) (readOne cfg y rd) := by
+  rw [readOne_eq cfg y rd hc m hm]
+  show RKX rd.uid (afterRead cfg y rd)
+      (if readBroken cfg rd then logAt cfg (fwdTop cfg) _ (removeModule cfg (fwdTop cfg) (afterRead cfg y rd) rd.uid)
+       else processMessage cfg (afterRead cfg y rd) rd.uid rd.h)
+  split
+  · exact (removeTop_rk cfg _ _ rd.uid).trans (logTop_rk cfg _ _ _)
+  · exact process_rkx cfg _ _ _
+
+omit ok hfuel in
+theorem acksOf_map (evs : List Ev) : (acksOf evs).map (fun p => (p.1, p.2.2)) = dataSends isAckB evs := by
+  induction evs with
+  | nil => rfl
+  | cons e evs ih =>
+    have e1 : acksOf (e :: evs) = acksOf [e] ++ acksOf evs := acksOf_append [e] evs
+    have e2 : dataSends isAckB (e :: evs) = dataSends isAckB [e] ++ dataSends isAckB evs := dataSends_append _ [e] evs
+    rw [e1, e2, List.map_append, ih]
+    congr 1
+    cases e with
+    | send u c f =>
+      cases hb : (f.body == Body.ack) with
+      | false =>
+        have hne : f.body ≠ .ack := by simpa using hb
+        simp [acksOf, sends, dataSends, isAckB, hne]
+      | true =>
+        have he : f.body = .ack := by simpa using hb
+        simp [acksOf, sends, dataSends, isAckB, he]
+    | _ => rfl
+
+omit ok hfuel in
+theorem failing_eq {a : A} {y : State} (h : a.fail = y.fail) (u : Nat) : a.failing u = (failOf y u).isSome := by
+  unfold A.failing failOf
+  rw [h]
+  induction y.fail with
+  | nil => rfl
+  | cons p l ih =>
+    simp only [List.any_cons, List.find?_cons]
+    cases (p.1 == u) <;> simp [ih]
+
+omit ok hfuel in
+/-- the fields a connect request asks for, as the Spec reads them and as the model writes them -/
+theorem reqOf_setAll (am : AMod) (m : Module) (hp : am.pid = m.pid) (h : Hdr) (buf : List Nat) (nm : List Nat) :
+    (reqOf cfg am h buf).modId = (setAll cfg buf h nm m).modId ∧ (reqOf cfg am h buf).pid = (setAll cfg buf h nm m).pid := by
+  unfold reqOf setAll setReq
+  split <;> simp [hp]
+
+omit ok hfuel in
+theorem reqOf_name (am : AMod) (m : Module) (h : Hdr) (buf : List Nat) (nm : List Nat)
+    (hn : (if h.mtype == cfg.mtConnectV2 then cstr buf 12 32 else some m.name) = some nm) :
+    ∃ nm', (reqOf cfg am h buf).name = some nm' := by
+  unfold reqOf
+  split
+  · rename_i hv; simp only [hv, if_true] at hn; exact ⟨nm, hn⟩
+  · exact ⟨am.name, rfl⟩
+
+omit ok hfuel in
+/-- the (un)subscribe update of the Spec leaves the identity fields of an entry alone -/
+theorem subF_tab (ty allT : Int) (add : Bool) (x : AMod) :
+    let y := (if ty == allT then (if add then { x with subAll := true, types := [] } else { x with subAll := false, types := [] })
+      else if x.subAll then x
+      else if add then { x with types := if x.types.contains ty then x.types else x.types ++ [ty] }
+      else { x with types := x.types.filter (· != ty) })
+    y.uid = x.uid ∧ y.modId = x.modId ∧ y.pid = x.pid ∧ y.connected = x.connected := by
+  dsimp only
+  repeat' split
+  all_goals exact ⟨rfl, rfl, rfl, rfl⟩
+
+omit ok hfuel in
+theorem tabEq_keep {am am' : AMod} {m m' : Module} (h : TabEq am m) (hk : KeepRec m m') (hcl : m'.closed = false)
+    (hu : m'.uid = m.uid)
+    (ha : am'.uid = am.uid ∧ am'.modId = am.modId ∧ am'.pid = am.pid ∧ am'.connected = am.connected) : TabEq am' m' := by
+  have ht := hk.1
+  simp only [Module.tabv, Prod.mk.injEq] at ht
+  obtain ⟨h1, h2, h3, h4⟩ := h
+  exact ⟨by rw [ha.1, h1, hu], by rw [ha.2.1, h2, ht.1], by rw [ha.2.2.1, h3, ht.2.1], by rw [ha.2.2.2, h4, (hk.2 hcl).2]⟩
+
+/-- **the entry of the connection a frame was read from**: what `segF` writes into the abstract entry is what the model
+    left in the table entry (if the connection is still in the table) -/
+theorem read_own {y : State} {a : A} (hI : MInv cfg y) (hS : Sim cfg y a) (rd : Read) (m : Module)
+    (hm : y.find rd.uid = some m) (am : AMod) (hte : TabEq am m) (e : List Ev)
+    (hout : (readOne cfg y rd).out = (afterRead cfg y rd).out ++ e) (m1 : Module)
+    (hm1 : (readOne cfg y rd).find rd.uid = some m1) :
+    TabEq (segF cfg (bufAfter cfg a.buf rd) (a.failing rd.uid) rd am (acksOf e) am) m1 := by
+  have hI0 : MInv cfg (afterRead cfg y rd) := minv_same ok hfuel hI rfl rfl rfl rfl rfl rfl rfl rfl
+  have hI1 := minv_readOne ok hfuel hI rd
+  have hcl1 : m1.closed = false := hI1.top.aopen rd.uid m1 hm1
+  have hu1 : m1.uid = m.uid := (find_uid hm1).trans (find_uid hm).symm
+  have hm0 : (afterRead cfg y rd).find rd.uid = some m := hm
+  have hbuf : bufAfter cfg a.buf rd = (afterRead cfg y rd).buf := by rw [hS.buf]; rfl
+  have he : readOne cfg y rd =
+      (if readBroken cfg rd then
+        logAt cfg (fwdTop cfg) (if rd.hdrErr || (!(!rd.hdrOk || rd.h.nbytes < 0 || rd.h.nbytes > cfg.bufMax) && rd.payErr) then 40 else 30)
+          (removeModule cfg (fwdTop cfg) (afterRead cfg y rd) rd.uid)
+       else processMessage cfg (afterRead cfg y rd) rd.uid rd.h) := readOne_eq cfg y rd hI.top.good.ok m hm
+  rw [he] at hm1 hout
+  have hg : ∀ (lvl : Nat) (s0 : State), (logAt cfg (fwdTop cfg) lvl (removeModule cfg (fwdTop cfg) s0 rd.uid)).find rd.uid = none :=
+    fun lvl s0 => rkp_gone (logTop_rk cfg (fun _ => false) lvl _) (u := rd.uid) rfl (removeModule_gone cfg (fwdTop cfg) s0 rd.uid)
+  unfold segF
+  by_cases hb : readBroken cfg rd = true
+  · exfalso
+    simp only [hb, if_true] at hm1
+    rw [hg] at hm1; cases hm1
+  · have hb' : readBroken cfg rd = false := by simpa using hb
+    simp only [hb', Bool.false_eq_true, if_false] at hm1 hout ⊢
+    by_cases hc : (rd.h.mtype == cfg.mtConnect || rd.h.mtype == cfg.mtConnectV2) = true
+    · simp only [hc, if_true]
+      by_cases hcn : m.connected = true
+      · have : am.connected = true := hte.2.2.2.trans hcn
+        simp only [this, if_true]
+        rw [process_connected_noop cfg _ _ _ m hm0 hcn hc, hm0] at hm1
+        cases hm1; exact hte
+      · have hcn' : m.connected = false := by simpa using hcn
+        have : am.connected = false := hte.2.2.2.trans hcn'
+        simp only [this, Bool.false_eq_true, if_false]
+        obtain ⟨nm, hnm, hc1, hp1, _, hmod, hfl, rest, hacks⟩ :=
+          connect_survivor ok hfuel hI0.top hI0.k.distinct rd.uid rd.h m hm0 hcn' hc m1 hm1
+        -- the acknowledgements of the segment start with the one to the requester
+        have hde : dataSends isAckB e = (rd.uid, ackFrame cfg m1.modId) :: rest := by
+          rw [hout, dataSends_append] at hacks
+          exact List.append_cancel_left hacks
+        have hak := acksOf_map e
+        rw [hde] at hak
+        cases hae : acksOf e with
+        | nil => rw [hae] at hak; simp at hak
+        | cons p ps =>
+          rw [hae] at hak
+          simp only [List.map_cons, List.cons.injEq, Prod.mk.injEq] at hak
+          have hdest : p.2.2.dest = m1.modId := by rw [hak.1.2]; rfl
+          have hfalse : a.failing rd.uid = false := by
+            rw [failing_eq hS.fail]
+            have : failOf y rd.uid = none := hfl
+            rw [this]; rfl
+          obtain ⟨r1, r2⟩ := reqOf_setAll (cfg := cfg) am m hte.2.2.1 rd.h (afterRead cfg y rd).buf nm
+          obtain ⟨nm', hnm'⟩ := reqOf_name (cfg := cfg) am m rd.h (afterRead cfg y rd).buf nm hnm
+          unfold connF
+          rw [hbuf]
+          simp only [hfalse, Bool.and_false, Bool.false_eq_true, if_false, hnm', List.isEmpty_cons, Bool.not_false, if_true,
+            List.head?_cons]
+          by_cases hz : ((reqOf cfg am rd.h (afterRead cfg y rd).buf).modId != 0) = true
+          · simp only [hz, if_true]
+            have hne : (setAll cfg (afterRead cfg y rd).buf rd.h nm m).modId ≠ 0 := by rw [← r1]; simpa using hz
+            exact ⟨hte.1.trans hu1.symm, by show (reqOf cfg am rd.h _).modId = _; rw [r1, hmod hne],
+              by show (reqOf cfg am rd.h _).pid = _; rw [r2, hp1], by show true = _; rw [hc1]⟩
+          · simp only [hz, Bool.false_eq_true, if_false]
+            exact ⟨hte.1.trans hu1.symm, hdest, by show (reqOf cfg am rd.h _).pid = _; rw [r2, hp1], by show true = _; rw [hc1]⟩
+    · have hc' : (rd.h.mtype == cfg.mtConnect || rd.h.mtype == cfg.mtConnectV2) = false := by simpa using hc
+      simp only [hc', Bool.false_eq_true, if_false]
+      by_cases hd : (rd.h.mtype == cfg.mtDisconnect) = true
+      · exfalso
+        unfold processMessage at hm1
+        simp only [hc', Bool.false_eq_true, if_false, hd, if_true] at hm1
+        rw [hg] at hm1; cases hm1
+      · have hd' : (rd.h.mtype == cfg.mtDisconnect) = false := by simpa using hd
+        simp only [hd', Bool.false_eq_true, if_false]
+        by_cases hs : (rd.h.mtype == cfg.mtSubscribe || rd.h.mtype == cfg.mtResume || rd.h.mtype == cfg.mtUnsubscribe ||
+            rd.h.mtype == cfg.mtPause) = true
+        · simp only [hs, if_true]
+          have hs1 : (rd.h.mtype == cfg.mtSubscribe || rd.h.mtype == cfg.mtResume) = true ∨
+              (rd.h.mtype == cfg.mtUnsubscribe || rd.h.mtype == cfg.mtPause) = true := by
+            simp only [Bool.or_eq_true] at hs ⊢
+            rcases hs with ((h | h) | h) | h
+            · exact Or.inl (Or.inl h)
+            · exact Or.inl (Or.inr h)
+            · exact Or.inr (Or.inl h)
+            · exact Or.inr (Or.inr h)
+          have hk : KeepRec m m1 := by
+            unfold processMessage at hm1
+            simp only [hc', Bool.false_eq_true, if_false, hd'] at hm1
+            by_cases h2 : (rd.h.mtype == cfg.mtSubscribe || rd.h.mtype == cfg.mtResume) = true
+            · simp only [h2, if_true] at hm1
+              obtain ⟨m0, hm00, hk⟩ := ((addSub_rk cfg (fun _ => false) _ rd.uid _).trans (sendAck_rk cfg _ _ rd.uid)) rd.uid m1 rfl hm1
+              rw [hm0] at hm00; cases hm00; exact hk
+            · have h1 : (rd.h.mtype == cfg.mtUnsubscribe || rd.h.mtype == cfg.mtPause) = true := by
+                rcases hs1 with h | h
+                · exact absurd h h2
+                · exact h
+              simp only [h2, Bool.false_eq_true, if_false, h1, if_true] at hm1
+              obtain ⟨m0, hm00, hk⟩ := ((removeSub_rk cfg (fun _ => false) _ rd.uid _).trans (sendAck_rk cfg _ _ rd.uid)) rd.uid m1 rfl hm1
+              rw [hm0] at hm00; cases hm00; exact hk
+          exact tabEq_keep hte hk hcl1 hu1 (subF_tab _ _ _ am)
+        · have hs' : (rd.h.mtype == cfg.mtSubscribe || rd.h.mtype == cfg.mtResume || rd.h.mtype == cfg.mtUnsubscribe ||
+              rd.h.mtype == cfg.mtPause) = false := by simpa using hs
+          simp only [hs', Bool.false_eq_true, if_false]
+          have hs2 : (rd.h.mtype == cfg.mtSubscribe || rd.h.mtype == cfg.mtResume) = false ∧
+              (rd.h.mtype == cfg.mtUnsubscribe || rd.h.mtype == cfg.mtPause) = false := by
+            simp only [Bool.or_eq_false_iff] at hs' ⊢
+            exact ⟨⟨hs'.1.1.1, hs'.1.1.2⟩, ⟨hs'.1.2, hs'.2⟩⟩
+          unfold processMessage at hm1
+          simp only [hc', Bool.false_eq_true, if_false, hd', hs2.1, hs2.2] at hm1
+          by_cases hn : (rd.h.mtype == cfg.mtSetName) = true
+          · simp only [hn, if_true] at hm1 ⊢
+            rw [hbuf]
+            cases hcs : cstr (afterRead cfg y rd).buf 0 32 with
+            | none =>
+              exfalso
+              simp only [hcs] at hm1
+              rw [removeModule_gone] at hm1; cases hm1
+            | some nm =>
+              simp only [hcs] at hm1 ⊢
+              obtain ⟨m0, hm00, hk⟩ := (((rkp_upd (fun _ => false) (afterRead cfg y rd) rd.uid (fun m => { m with name := nm })
+                (fun _ => rfl) (fun m => ⟨rfl, fun h => ⟨h, rfl⟩⟩)).trans (logTop_rk cfg _ 20 _)).trans (infoOf_rk cfg _ _ _)) rd.uid m1 rfl hm1
+              rw [hm0] at hm00; cases hm00
+              exact tabEq_keep hte hk hcl1 hu1 ⟨rfl, rfl, rfl, rfl⟩
+          · have hn' : (rd.h.mtype == cfg.mtSetName) = false := by simpa using hn
+            simp only [hn', Bool.false_eq_true, if_false] at hm1 ⊢
+            by_cases hr : (rd.h.mtype == cfg.mtModuleReady) = true
+            · simp only [hr, if_true] at hm1 ⊢
+              have hfu := find_upd_self (afterRead cfg y rd) rd.uid (fun m => { m with pid := bufI32 (afterRead cfg y rd).buf 0 })
+                (fun _ => rfl) hm0
+              obtain ⟨m0, hm00, hk⟩ := sendInfo_rk cfg (fun _ => false) _ rd.uid rd.uid m1 rfl hm1
+              rw [hfu] at hm00; cases hm00
+              have ht := hk.1
+              simp only [Module.tabv, Prod.mk.injEq] at ht
+              rw [hbuf]
+              exact ⟨hte.1.trans hu1.symm, by show am.modId = _; rw [hte.2.1, ht.1], by show bufI32 _ 0 = _; rw [ht.2.1],
+                by show am.connected = _; rw [hte.2.2.2, (hk.2 hcl1).2]⟩
+            · have hr' : (rd.h.mtype == cfg.mtModuleReady) = false := by simpa using hr
+              simp only [hr', Bool.false_eq_true, if_false] at hm1 ⊢
+              obtain ⟨m0, hm00, hk⟩ := ((logTop_rk cfg (fun _ => false) 10 (afterRead cfg y rd)).trans (fwdTop_rk cfg _ _ _)) rd.uid m1 rfl hm1
+              rw [hm0] at hm00; cases hm00
+              exact tabEq_keep hte hk hcl1 hu1 ⟨rfl, rfl, rfl, rfl⟩
+
 /-- **one frame read keeps the simulation**: the abstract state after `segX` and the departures of the segment's own
     events corresponds to the model state after `readOne` -/
 theorem read_sim {y : State} {a : A} (hI : MInv cfg y) (hS : Sim cfg y a) (rd : Read) (m : Module)
@@ -607,7 +892,37 @@ theorem read_sim {y : State} {a : A} (hI : MInv cfg y) (hS : Sim cfg y a) (rd : 
   refine ⟨e, am, by rw [hE.out]; simp [afterRead, State.emit], hE.nord, hget, halive, ?_⟩
   rw [applyDepartures_eq]
   refine ⟨hS.now.trans hA.now.symm, hS.tT.trans hA.tT.symm, hS.tR.trans hA.tR.symm, hS.tI.trans hA.tI.symm,
-    hS.seq.trans hA.seq.symm, hS.nacc.trans hE.nuid.symm, ?_, ?_, hS.fail.trans hE.fail.symm, ?_, ?_⟩
+    hS.seq.trans hA.seq.symm, hS.nacc.trans hE.nuid.symm, ?_, ?_, hS.fail.trans hE.fail.symm, ?_, ?_, ?_, ?_⟩
+  rotate_left 4
+  · show bufAfter cfg a.buf rd = _
+    rw [hA.buf, hS.buf]; rfl
+  · -- the table entries
+    have hI1 := minv_readOne ok hfuel hI rd
+    obtain ⟨am0, ham0, hte0⟩ := hS.tab m (mem_of_find hm) (by rw [find_uid hm]; exact h0)
+    have hame : am0 = am := sim_unique hS ham0 hmem (hte0.1.trans ((find_uid hm).trans huid.symm))
+    subst hame
+    intro m1 hm1 h01
+    show ∃ am1 ∈ depMods (segX cfg a rd am0 (acksOf e)).mods (closes e), TabEq am1 m1
+    by_cases hu : m1.uid = rd.uid
+    · have hf1 : (readOne cfg y rd).find rd.uid = some m1 := by rw [← hu]; exact find_of_mem hI1.k.distinct hm1
+      have hown := read_own ok hfuel hI hS rd m hm am0 hte0 e hE.out m1 hf1
+      refine ⟨_, mem_depMods_of_open (List.mem_map.mpr ⟨am0, hmem, by simp [huid]⟩) ?_, hown⟩
+      rw [(segF_keep ..).1, huid]
+      cases hq : (closes e).contains rd.uid with
+      | false => rfl
+      | true =>
+        have := (mem_closes_iff e rd.uid).mp hq
+        have hc := hE.cons rd.uid
+        have hop : isOpen (readOne cfg y rd) rd.uid = true := isOpen_of_find hf1 (hI1.top.aopen rd.uid m1 hf1)
+        unfold openN at hc
+        rw [hop] at hc
+        cases h5 : isOpen (afterRead cfg y rd) rd.uid <;> simp [h5] at hc <;> omega
+    · refine tab_step (p := fun v => v == rd.uid) (y := afterRead cfg y rd) ?_ (readOne_rkx hI.top.good.ok rd m hm) hE.cons
+        hI1.k.distinct hI1.top.aopen m1 hm1 h01 (by simpa using hu)
+      intro m2 hm2 h02 hp2
+      obtain ⟨am2, ham2, hte2⟩ := hS.tab m2 hm2 h02
+      have hne : (am2.uid == rd.uid) = false := by rw [hte2.1]; exact hp2
+      exact ⟨am2, List.mem_map.mpr ⟨am2, ham2, by simp [hne]⟩, hte2⟩
   · show (depMods (segX cfg a rd am (acksOf e)).mods (closes e)).map (·.uid) = _
     rw [depMods_uids, segX_uids, hS.uids, hE.nuid]; rfl
   · refine alive_step (y := afterRead cfg y rd) ?_ hE.cons
@@ -634,10 +949,13 @@ theorem read_sim {y : State} {a : A} (hI : MInv cfg y) (hS : Sim cfg y a) (rd : 
 omit ok hfuel in
 /-- an operation that handles manager-originated frames only keeps the simulation once its departures are applied -/
 theorem sim_step {y y' : State} {a : A} {e : List Ev} {mk : List Mark} {P : Int → Bool} (hE : EvE y y' e)
-    (hA : AccE cfg P y y' mk) (hcli : cliMarks cfg mk = []) (hS : Sim cfg y a) : Sim cfg y' (applyDepartures a e) := by
+    (hA : AccE cfg P y y' mk) (hcli : cliMarks cfg mk = []) (hrk : RK y y') (hd' : UidsDistinct y') (hao : AllOpen y')
+    (hS : Sim cfg y a) : Sim cfg y' (applyDepartures a e) := by
   rw [applyDepartures_eq]
   refine ⟨hS.now.trans hA.now.symm, hS.tT.trans hA.tT.symm, hS.tR.trans hA.tR.symm, hS.tI.trans hA.tI.symm,
-    hS.seq.trans hA.seq.symm, hS.nacc.trans hE.nuid.symm, ?_, alive_step hS.alive hE.cons, hS.fail.trans hE.fail.symm, ?_, ?_⟩
+    hS.seq.trans hA.seq.symm, hS.nacc.trans hE.nuid.symm, ?_, alive_step hS.alive hE.cons, hS.fail.trans hE.fail.symm, ?_, ?_,
+    hS.buf.trans hA.buf.symm,
+    fun m' hm' h0 => tab_step (p := fun _ => false) (fun m hm h0 _ => hS.tab m hm h0) hrk hE.cons hd' hao m' hm' h0 rfl⟩
   · show (depMods a.mods (closes e)).map (·.uid) = _
     rw [depMods_uids, hS.uids, hE.nuid]
   · show a.pubT = _
@@ -654,7 +972,8 @@ theorem accept_sim {y : State} {a : A} (hI : MInv cfg y) (hS : Sim cfg y a) :
     ⟨top_accept ok hfuel hI.top, accept_K cfg hI.k, statInv_same (statInv_acc hI.stat (accept_macc cfg y)) rfl rfl rfl rfl⟩
   obtain ⟨pre, hE⟩ := logTop_ev cfg 20 hI.k.distinct
   obtain ⟨mk, hA⟩ := logAt_macc cfg 20 y
-  have hS1 := sim_step hE hA (cliMarks_mgr cfg hA.marks) hS
+  have hTl := top_log ok hfuel hI.top 20
+  have hS1 := sim_step hE hA (cliMarks_mgr cfg hA.marks) (logTop_rk cfg _ 20 y) (hE.distinct hI.k.distinct) hTl.aopen hS
   generalize hyl : logAt cfg (fwdTop cfg) 20 y = yl at hE hA hS1
   have hacc : acceptStep cfg y = { yl with nextUid := yl.nextUid + 1, mods := yl.mods ++ [{ uid := yl.nextUid + 1 }] } := by
     unfold acceptStep; rw [hyl]
@@ -687,7 +1006,18 @@ theorem accept_sim {y : State} {a : A} (hI : MInv cfg y) (hS : Sim cfg y a) :
     have hnew' : a.nAccepted + 1 ∉ closes pre := by simpa using hnew
     simp [hnew']
   have hn1 : yl.nextUid = a.nAccepted := hS1.nacc.symm
-  refine ⟨hS1.now, hS1.tT, hS1.tR, hS1.tI, hS1.seq, by show a.nAccepted + 1 = yl.nextUid + 1; rw [hn1], ?_, ?_, hS1.fail, hS1.pubT, hS1.pubR⟩
+  refine ⟨hS1.now, hS1.tT, hS1.tR, hS1.tI, hS1.seq, by show a.nAccepted + 1 = yl.nextUid + 1; rw [hn1], ?_, ?_, hS1.fail, hS1.pubT, hS1.pubR,
+    hS1.buf, ?_⟩
+  rotate_left 2
+  · intro m hm h0
+    have hm' : m ∈ yl.mods ++ [({ uid := yl.nextUid + 1 } : Module)] := hm
+    show ∃ am ∈ depMods (a.mods ++ [({ uid := a.nAccepted + 1 } : AMod)]) (closes pre), TabEq am m
+    rw [hdm]
+    rcases List.mem_append.mp hm' with h1 | h1
+    · obtain ⟨am, ham, hte⟩ := hS1.tab m h1 h0
+      exact ⟨am, List.mem_append.mpr (Or.inl ham), hte⟩
+    · simp at h1; subst h1
+      exact ⟨{ uid := a.nAccepted + 1 }, by simp, by show a.nAccepted + 1 = yl.nextUid + 1; rw [hn1], rfl, rfl, rfl⟩
   · show (depMods (a.mods ++ [({ uid := a.nAccepted + 1 } : AMod)]) (closes pre)).map (·.uid) = (List.range (yl.nextUid + 1)).map (· + 1)
     rw [hdm, List.map_append, List.range_succ, List.map_append]
     have := hS1.uids
@@ -778,7 +1108,7 @@ theorem go_sim : ∀ (reads : List Read) {y : State} {a : A}, MInv cfg y → Sim
 
 omit ok hfuel in
 theorem sim_w {x : State} {a : A} (h : Sim cfg x a) (w : List Nat) : Sim cfg x { a with w := w } :=
-  ⟨h.now, h.tT, h.tR, h.tI, h.seq, h.nacc, h.uids, h.alive, h.fail, h.pubT, h.pubR⟩
+  ⟨h.now, h.tT, h.tR, h.tI, h.seq, h.nacc, h.uids, h.alive, h.fail, h.pubT, h.pubR, h.buf, h.tab⟩
 
 omit ok hfuel in
 /-- the frames the Spec expects to be read are the frames the model reads -/
@@ -823,7 +1153,7 @@ theorem pre_sim {x : State} {a : A} (hI : MInv cfg x) (hS : Sim cfg x a) (hx : x
   have hx1 : (envStep x r).out = [] := hx
   -- the abstract state after the clock / environment step
   have hS1 : Sim cfg (envStep x r) { a with now := a.now + r.dt, fail := (r.failSet.filter (·.1 ≤ a.nAccepted)).foldl (fun fl (p : Nat × Option FailMode) => setFail fl p.1 p.2) a.fail } := by
-    refine ⟨?_, hS.tT, hS.tR, hS.tI, hS.seq, hS.nacc, hS.uids, hS.alive, ?_, hS.pubT, hS.pubR⟩
+    refine ⟨?_, hS.tT, hS.tR, hS.tI, hS.seq, hS.nacc, hS.uids, hS.alive, ?_, hS.pubT, hS.pubR, hS.buf, hS.tab⟩
     · show a.now + r.dt = x.now + r.dt; rw [hS.now]
     · show _ = (r.failSet.filter (·.1 ≤ x.nextUid)).foldl (fun fl p => setFail fl p.1 p.2) x.fail
       rw [hS.nacc, hS.fail]
@@ -873,7 +1203,8 @@ theorem pre_sim {x : State} {a : A} (hI : MInv cfg x) (hS : Sim cfg x a) (hx : x
         rw [applyDepartures_eq, applyDepartures_eq]
       rw [e1]
       have := sim_w hSA wa
-      exact ⟨this.now, this.tT, this.tR, this.tI, this.seq, this.nacc, this.uids, this.alive, this.fail, this.pubT, this.pubR⟩
+      exact ⟨this.now, this.tT, this.tR, this.tI, this.seq, this.nacc, this.uids, this.alive, this.fail, this.pubT, this.pubR,
+        this.buf, this.tab⟩
     obtain ⟨segs, a', ho, hn, hI', hS', hrT, hrR, hrE, hgo⟩ := go_sim ok hfuel reads hIW hSW h0'
     refine ⟨preM, segs, a', by rw [ho]; show xA.out ++ _ = _; rw [hoA], hnA, hn, hI', hS', ?_, ?_, ?_, ?_, fun T hT hA => ?_⟩
     · exact (hrbA.trans0 (rb_same (s' := { xA with wlist := wl }) rfl rfl rfl)).trans0 (readAll_rb ok hfuel hna hord reads hIW.top)
@@ -897,7 +1228,8 @@ omit ok hfuel in
     carries the departures of the section's events `T`, the receive tallies `rT`, `rR` are bounded with respect to the
     state `x2` before the section) -/
 theorem tail_sim {x2 : State} {a' : A} (hidle : x2.inTraffic = false) (hS : Sim cfg x2 a')
-    (T : List Ev) (hE : EvE x2 (ticks cfg x2) T) (rT rR : List ((Nat × Int) × Nat))
+    (T : List Ev) (hE : EvE x2 (ticks cfg x2) T) (hd3 : UidsDistinct (ticks cfg x2)) (hao3 : AllOpen (ticks cfg x2))
+    (rT rR : List ((Nat × Int) × Nat))
     (hrT : ∀ q ∈ rT, q.2 ≤ hmgr cfg (sinceTick .timingTick x2.hist) q.1.2)
     (hrR : ∀ q ∈ rR, q.2 ≤ hmgr cfg (sinceTick .trafficTick x2.hist) q.1.2) :
     Sim cfg (ticks cfg x2) (tailU cfg { a' with mods := depMods a'.mods (closes T), recvT := rT, recvR := rR }) ∧
@@ -913,7 +1245,11 @@ theorem tail_sim {x2 : State} {a' : A} (hidle : x2.inTraffic = false) (hS : Sim 
     have g4 : a7.tInfo = x2.tInfo := by subst ha7; exact hS.tI
     have g5 : a7.seq = x2.trafficSeq := by subst ha7; exact hS.seq
     refine ⟨by rw [f1, g1, hnow], by rw [f8, g1, g2, htT], by rw [f9, g1, g3, htR], by rw [f11, g1, g4, htI],
-      by rw [f10, g1, g3, g5, hseq], ?_, ?_, ?_, ?_, ?_, ?_⟩
+      by rw [f10, g1, g3, g5, hseq], ?_, ?_, ?_, ?_, ?_, ?_, ?_, ?_⟩
+    rotate_left 6
+    · rw [f5, hbuf]; subst ha7; exact hS.buf
+    · rw [f2]; subst ha7
+      exact fun m' hm' h0 => tab_step (p := fun _ => false) (fun m hm h0 _ => hS.tab m hm h0) (ticks_rk cfg _ x2) hE.cons hd3 hao3 m' hm' h0 rfl
     · rw [f3]; subst ha7; exact hS.nacc.trans hE.nuid.symm
     · rw [f2]; subst ha7
       show (depMods a'.mods (closes T)).map (·.uid) = _
@@ -965,7 +1301,7 @@ theorem tail_sim {x2 : State} {a' : A} (hidle : x2.inTraffic = false) (hS : Sim 
 omit ok hfuel in
 theorem sim_of_noErr {x : State} {a b : A} (h : b.noErr = a.noErr) (hs : Sim cfg x a) : Sim cfg x b := by
   rw [eq_of_noErr h]
-  exact ⟨hs.now, hs.tT, hs.tR, hs.tI, hs.seq, hs.nacc, hs.uids, hs.alive, hs.fail, hs.pubT, hs.pubR⟩
+  exact ⟨hs.now, hs.tT, hs.tR, hs.tI, hs.seq, hs.nacc, hs.uids, hs.alive, hs.fail, hs.pubT, hs.pubR, hs.buf, hs.tab⟩
 
 omit ok hfuel in
 theorem recvOK_of_noErr {x : State} {a b : A} (h : b.noErr = a.noErr) (hs : RecvOK cfg x a) : RecvOK cfg x b := by
@@ -1020,7 +1356,8 @@ theorem round_pre {x : State} {a : A} (h : RInv cfg x a) (hna : MgrNotAll cfg) (
       (∀ q ∈ rR, q.2 ≤ hmgr cfg (sinceTick .trafficTick x2.hist) q.1.2) := by
   have hI0 : MInv cfg ({ x with out := [] } : State) := minv_same ok hfuel h.inv rfl rfl rfl rfl rfl rfl rfl rfl
   have hS0 : Sim cfg ({ x with out := [] } : State) a :=
-    ⟨h.sim.now, h.sim.tT, h.sim.tR, h.sim.tI, h.sim.seq, h.sim.nacc, h.sim.uids, h.sim.alive, h.sim.fail, h.sim.pubT, h.sim.pubR⟩
+    ⟨h.sim.now, h.sim.tT, h.sim.tR, h.sim.tI, h.sim.seq, h.sim.nacc, h.sim.uids, h.sim.alive, h.sim.fail, h.sim.pubT, h.sim.pubR,
+      h.sim.buf, h.sim.tab⟩
   obtain ⟨preM, segs, a', ho, hnp, hns, hI2, hS2, hrb, heT, heR, heE, hgo⟩ := pre_sim ok hfuel hI0 hS0 rfl hna hord r hr
   generalize hx2 : ioStep cfg (envStep ({ x with out := [] } : State) r) r.accept r.writable
     (r.reads.filter (fun rd => ((envStep ({ x with out := [] } : State) r).find rd.uid).isSome)) = x2 at ho hI2 hS2 hrb
@@ -1136,7 +1473,8 @@ theorem round_pre {x : State} {a : A} (h : RInv cfg x a) (hna : MgrNotAll cfg) (
 theorem round_inv {x : State} {a : A} (h : RInv cfg x a) (hna : MgrNotAll cfg) (hord : OrderGood cfg) (r : Round)
     (hr : RoundOK r) : RInv cfg (stepR cfg x r) (round cfg a r (stepR cfg x r).out) := by
   obtain ⟨x2, T, a', rT, rR, lastIO, hP, hS2, hrT, hrR⟩ := round_pre ok hfuel h hna hord r hr
-  obtain ⟨hs, hrv⟩ := tail_sim hP.inv2.stat.idle hS2 T hP.ev rT rR hrT hrR
+  have hI3 : MInv cfg (ticks cfg x2) := ⟨top_ticks ok hfuel hP.inv2.top, ticks_K cfg hP.inv2.k, ticks_statInv hP.inv2.stat⟩
+  obtain ⟨hs, hrv⟩ := tail_sim hP.inv2.stat.idle hS2 T hP.ev hI3.k.distinct hI3.top.aopen rT rR hrT hrR
   have hne : (round cfg a r (stepR cfg x r).out).noErr =
       (tailU cfg { a' with mods := depMods a'.mods (closes T), recvT := rT, recvR := rR }).noErr := by
     rw [round_eq, tail_noErr]; exact tailU_noErr_congr cfg hP.pre
